@@ -8,7 +8,7 @@
    versions, duplicates, empty, missing), for both values of the ignore-missing option;
    the only hypothesis is that history versions are non-negative. *)
 From Coq Require Import ZArith List Bool Lia.
-From Verif Require Import C13.Model C13.Spec C13.Proofs C13.GenOk.
+From Verif Require Import C13.Model C13.Spec C13.Proofs C13.GenSupport C13.GenOk.
 From VerifGen Require Import GenChange.
 Import ListNotations.
 Open Scope Z_scope.
@@ -139,6 +139,18 @@ Proof.
   split; [exact gen_find_previous_node_ok|]. split; [exact gen_find_previous_node_err|exact gen_check_err_ok].
 Qed.
 Print Assumptions C13_generated_code_is_model.
+
+(* 5. ... and so are addUpdate and Change themselves (wave 4): the whole C13 model is
+      regenerated from annotate/change.go.  A *osm.Change is a [gchange] (three optional
+      sections; a nil section behaves as an empty one: [change_of]); the data source and what
+      its NotFound says about the typed error are parameters; the option functions are applied
+      by the caller (ign is their effect on IgnoreMissingChildren). *)
+Theorem C13_generated_change_is_model :
+  (forall nft ds acts o ty ign,
+     gen_add_update nft ds acts o ty ign = add_update nft ds ign ty (sec_of o) acts) /\
+  (forall nft ds ign g, gen_change nft ds ign g = annotate_change nft ds ign (change_of g)).
+Proof. split; [exact gen_add_update_ok|exact gen_change_ok]. Qed.
+Print Assumptions C13_generated_change_is_model.
 
 (* ---------- non-vacuity ---------- *)
 Definition ex_hist := [mkElem KNode 3 1 true 21; mkElem KNode 3 3 true 22; mkElem KNode 3 2 false 23;
